@@ -104,9 +104,35 @@ func main() {
 	one := flag.String("replay", "", "replay one case: n,seed,k")
 	walk := flag.String("walk", "", "walk one whole range with a bitmap: n,seed,limit")
 	sweep := flag.String("sweep", "", "exhaustive small sizes: N,S = every n in 1..N under seeds 1..S, walked completely with a bitmap")
+	sparse := flag.String("sparse", "", "sparse sizes: LIMIT,S = for every table row with P <= LIMIT the sizes just above the previous row's prime (about half of the group is out of range), walked completely with a bitmap under S seeds")
 	flag.Parse()
 	w := hlib.NewOut(*out)
 	defer w.Close()
+	if *sparse != "" {
+		var lim, sd int64
+		var k int
+		if _, err := fmtSscan(*sparse+",0", &lim, &sd, &k); err != nil {
+			panic(err)
+		}
+		prev := int64(1)
+		for _, row := range scan.VerifCyclicGroups() {
+			if row[0] > lim {
+				break
+			}
+			for _, n := range []int64{prev, prev + 1, prev + (row[0]-prev)/7} {
+				if n < 1 || n >= row[0] {
+					continue
+				}
+				for y := int64(1); y <= sd; y++ {
+					o := walkCase(n, y*104729+n, n+2)
+					o.Class = "sparse"
+					w.Put(o)
+				}
+			}
+			prev = row[0]
+		}
+		return
+	}
 	if *walk != "" {
 		var n, s int64
 		var k int
